@@ -9,6 +9,7 @@ D3 created keys mirror the processor, without duplicates; registry coherence (SV
 from __future__ import annotations
 
 import ast
+import re as _re
 from typing import Dict, List, Optional, Set, Tuple
 
 from ..engine import (
@@ -38,22 +39,18 @@ NODES = "semantiva/pipeline/nodes/nodes.py"
 COMP = "semantiva/core/semantiva_component.py"
 
 
-def catalogue_classmethod_names(repo: Repo) -> Tuple[Set[str], str]:
-    """Method names the catalogue requires to be classmethods, and the suffix rule."""
+def catalogue_classmethod_names(repo: Repo) -> Tuple[Set[str], "NameSelector"]:
+    """Method names the catalogue requires to be classmethods (literal second arguments of `_is_classmethod`), and the
+    selector of the rules that pick their subject names out of `dir(cls)` (SVA003)."""
     mod = repo.module(EXP)
     names: Set[str] = set()
     for c in [n for n in ast.walk(mod.tree) if isinstance(n, ast.Call)]:
         if call_attr(c) == "_is_classmethod" and len(c.args) == 2 and isinstance(c.args[1], ast.Constant):
             names.add(c.args[1].value)
-    it = mod.defs.get("_iter_data_type_methods")
-    suffix = None
-    if isinstance(it, FuncNode):
-        for c in ast.walk(it):
-            if isinstance(c, ast.Call) and call_attr(c) == "endswith" and c.args and isinstance(c.args[0], ast.Constant) and not str(c.args[0].value).startswith("__"):
-                suffix = c.args[0].value
-    if len(names) < 8 or suffix is None:
-        raise AnalysisError(f"contract catalogue: {len(names)} classmethod rules / suffix {suffix!r} found (10 names and '_data_type' confirmed by reading)")
-    return names, suffix
+    selector = NameSelector(repo)
+    if len(names) < 8 or not selector.scans:
+        raise AnalysisError(f"contract catalogue: {len(names)} classmethod rules / {len(selector.scans)} dir()-scan selecting the names that must be classmethods found (10 names and one scan for '*_data_type' confirmed by reading)")
+    return names, selector
 
 
 def is_classmethod_value(v: Optional[ast.AST], scope: ast.AST) -> bool:
@@ -481,7 +478,20 @@ def abs_eval(e: ast.AST, env: Dict[str, object], fn: ast.AST, _depth: int = 0):
         base = ev(e.value)
         if isinstance(base, dict) and e.slice.value in base:
             return base[e.slice.value]
+        if isinstance(base, (str, tuple)) and isinstance(e.slice.value, int) and -len(base) <= e.slice.value < len(base):
+            return base[e.slice.value]
         raise _Unknown("subscript")
+    if isinstance(e, ast.Subscript) and isinstance(e.slice, ast.Slice):
+        base = ev(e.value)
+        bounds = [None if b is None else ev(b) for b in (e.slice.lower, e.slice.upper, e.slice.step)]
+        if isinstance(base, (str, tuple)) and all(b is None or isinstance(b, int) for b in bounds) and bounds[2] != 0:
+            return base[bounds[0]:bounds[1]:bounds[2]]
+        raise _Unknown("slice")
+    if isinstance(e, ast.UnaryOp) and isinstance(e.op, ast.USub):
+        v = ev(e.operand)
+        if isinstance(v, (int, float)) and not isinstance(v, bool):
+            return -v
+        raise _Unknown("negation")
     if isinstance(e, ast.Attribute):
         base = ev(e.value)
         if isinstance(base, _AbsClass):
@@ -564,8 +574,211 @@ def abs_eval(e: ast.AST, env: Dict[str, object], fn: ast.AST, _depth: int = 0):
             base, arg = ev(e.func.value), ev(e.args[0])
             if isinstance(base, str) and isinstance(arg, (str, tuple)):
                 return getattr(base, e.func.attr)(arg)
+        # literal regular expressions (interpreted here, nothing of the repo runs)
+        if call_name(e) == "re.compile" and len(e.args) == 1 and not e.keywords:
+            pat = ev(e.args[0])
+            if isinstance(pat, str):
+                try:
+                    return _re.compile(pat)
+                except _re.error:
+                    raise _Unknown("malformed regular expression")
+        if isinstance(e.func, ast.Attribute) and e.func.attr in ("match", "search", "fullmatch") and not e.keywords:
+            if dotted_name(e.func.value) == "re" and len(e.args) == 2:
+                pat, subject = ev(e.args[0]), ev(e.args[1])
+                if isinstance(pat, str) and isinstance(subject, str):
+                    try:
+                        return getattr(_re, e.func.attr)(pat, subject) is not None
+                    except _re.error:
+                        raise _Unknown("malformed regular expression")
+            elif len(e.args) == 1:
+                base, subject = ev(e.func.value), ev(e.args[0])
+                if isinstance(base, _re.Pattern) and isinstance(subject, str):
+                    return getattr(base, e.func.attr)(subject) is not None
+        if (call_name(e) or "").split(".")[-1] in ("fnmatch", "fnmatchcase") and len(e.args) == 2 and not e.keywords:
+            subject, pat = ev(e.args[0]), ev(e.args[1])
+            if isinstance(subject, str) and isinstance(pat, str):
+                import fnmatch as _fn
+
+                return _fn.fnmatchcase(subject, pat)
+        if isinstance(e.func, ast.Attribute) and e.func.attr in ("removeprefix", "removesuffix") and len(e.args) == 1:
+            base, arg = ev(e.func.value), ev(e.args[0])
+            if isinstance(base, str) and isinstance(arg, str):
+                return getattr(base, e.func.attr)(arg)
         raise _Unknown(f"call {ast.unparse(e)[:60]}")
     raise _Unknown(type(e).__name__)
+
+
+# --------------------------------------------------------------------------- round 4: which names must be classmethods
+def _mentions_classmethod(n: ast.AST) -> bool:
+    return any(isinstance(x, ast.Name) and x.id == "classmethod" for x in ast.walk(n))
+
+
+class NameSelector:
+    """The catalogue rules that take their subject names from a scan of `dir(cls)` and require each selected name to be
+    bound to a classmethod, as a decision procedure over a concrete attribute name: the filters between the `dir()`
+    scan and the classmethod test are evaluated on the name (string methods, membership, literal regular expressions)."""
+
+    def __init__(self, repo: Repo):
+        self.repo = repo
+        mod = repo.module(EXP)
+        self.mod = mod
+        checks: List[str] = []
+        for c in [n for n in ast.walk(mod.tree) if isinstance(n, ast.Call)]:
+            if call_name(c) == "RuleSpec":
+                cand = [a for a in list(c.args) + [k.value for k in c.keywords] if isinstance(a, ast.Name) and isinstance(mod.defs.get(a.id), FuncNode)]
+                checks.extend(a.id for a in cand if a.id not in checks)
+        if len(checks) < 10:
+            raise AnalysisError(f"contract catalogue: {len(checks)} check functions registered through RuleSpec(...) found (30+ confirmed by reading)")
+        self.n_checks = len(checks)
+        # (check name, normal form, loop or comprehension whose body / conditions hold the classmethod test, loop variable)
+        self.scans: List[Tuple[str, ast.AST, ast.AST, str]] = []
+        for qn in checks:
+            src = mod.defs[qn]
+            if not any(isinstance(c, ast.Call) and isinstance(c.func, ast.Name) and c.func.id == "dir" for h in [src] + [mod.defs[x] for x in self._callees(src)] for c in ast.walk(h)):
+                continue
+            f = clone(nfunc(repo, EXP, qn, copyprop="all"))
+            _attach_parents(f)
+            for n in ast.walk(f):
+                if isinstance(n, (ast.For, ast.AsyncFor)) and isinstance(n.target, ast.Name) and any(_mentions_classmethod(b) for b in n.body) and self._from_dir(f, n.iter, set()):
+                    self.scans.append((qn, f, n, n.target.id))
+                elif isinstance(n, (ast.ListComp, ast.SetComp, ast.GeneratorExp)) and len(n.generators) == 1 and isinstance(n.generators[0].target, ast.Name) and (any(_mentions_classmethod(i) for i in n.generators[0].ifs) or _mentions_classmethod(n.elt)) and self._from_dir(f, n.generators[0].iter, set()):
+                    self.scans.append((qn, f, n, n.generators[0].target.id))
+
+    def _callees(self, fn: ast.AST, _seen: Optional[Set[str]] = None) -> Set[str]:
+        _seen = _seen if _seen is not None else set()
+        for c in ast.walk(fn):
+            if isinstance(c, ast.Call) and isinstance(c.func, ast.Name) and c.func.id not in _seen and isinstance(self.mod.defs.get(c.func.id), FuncNode):
+                _seen.add(c.func.id)
+                self._callees(self.mod.defs[c.func.id], _seen)
+        return _seen
+
+    # -- where the iterated names come from
+    def _accumulators(self, f: ast.AST, name: str) -> List[Tuple[ast.AST, str]]:
+        """Loops `for V in I: ... name.append(V)` of *f*."""
+        out = []
+        for n in ast.walk(f):
+            if isinstance(n, (ast.For, ast.AsyncFor)) and isinstance(n.target, ast.Name):
+                v = n.target.id
+                if any(self._adds(st, name, v) for b in n.body for st in ast.walk(b)):
+                    out.append((n, v))
+        return out
+
+    @staticmethod
+    def _adds(st: ast.AST, acc: Optional[str], var: str) -> bool:
+        if isinstance(st, ast.Expr) and isinstance(st.value, ast.Call) and isinstance(st.value.func, ast.Attribute) and st.value.func.attr in ("append", "add") and len(st.value.args) == 1 and isinstance(st.value.args[0], ast.Name) and st.value.args[0].id == var:
+            return acc is None or (isinstance(st.value.func.value, ast.Name) and st.value.func.value.id == acc)
+        if isinstance(st, ast.Expr) and isinstance(st.value, ast.Yield) and isinstance(st.value.value, ast.Name) and st.value.value.id == var:
+            return acc is None
+        return False
+
+    def _from_dir(self, f: ast.AST, it: ast.AST, seen: Set[str]) -> bool:
+        if isinstance(it, ast.Call) and isinstance(it.func, ast.Name) and it.func.id == "dir":
+            return True
+        if isinstance(it, ast.Call) and isinstance(it.func, ast.Name) and it.func.id in ("list", "sorted", "set", "tuple", "frozenset", "iter", "reversed") and len(it.args) == 1:
+            return self._from_dir(f, it.args[0], seen)
+        if isinstance(it, (ast.ListComp, ast.SetComp, ast.GeneratorExp)) and len(it.generators) == 1:
+            return self._from_dir(f, it.generators[0].iter, seen)
+        if isinstance(it, ast.Name) and it.id not in seen:
+            seen.add(it.id)
+            return any(self._from_dir(f, lp.iter, seen) for lp, _v in self._accumulators(f, it.id)) or any(self._from_dir(f, v, seen) for v in assigned_value(f, it.id) if not (isinstance(v, ast.List) and not v.elts))
+        return False
+
+    def _module_env(self, f: ast.AST) -> Dict[str, object]:
+        """Module-level names the normal form reads (a compiled pattern, a tuple of names), evaluated from their literal definition."""
+        env: Dict[str, object] = {}
+        bound = set(_params(f)) | {t.id for n in ast.walk(f) for t in ast.walk(n) if isinstance(t, ast.Name) and isinstance(t.ctx, ast.Store)}
+        for nm in sorted({x.id for x in ast.walk(f) if isinstance(x, ast.Name) and isinstance(x.ctx, ast.Load)} - bound):
+            vals = [st.value for st in self.mod.tree.body if isinstance(st, (ast.Assign, ast.AnnAssign)) and st.value is not None and any(isinstance(t, ast.Name) and t.id == nm for t in (st.targets if isinstance(st, ast.Assign) else [st.target]))]
+            if len(vals) == 1:
+                try:
+                    env[nm] = abs_eval(vals[0], {}, self.mod.tree)
+                except _Unknown:
+                    pass
+        return env
+
+    def _selected_by(self, f: ast.AST, it: ast.AST, name: str, env: Dict[str, object], seen: Set[str]) -> bool:
+        """Does the sequence *it* contain *name*, given that `dir(cls)` does?"""
+        if isinstance(it, ast.Call) and isinstance(it.func, ast.Name) and it.func.id == "dir":
+            return True
+        if isinstance(it, ast.Call) and isinstance(it.func, ast.Name) and it.func.id in ("list", "sorted", "set", "tuple", "frozenset", "iter", "reversed") and len(it.args) == 1:
+            return self._selected_by(f, it.args[0], name, env, seen)
+        if isinstance(it, (ast.ListComp, ast.SetComp, ast.GeneratorExp)) and len(it.generators) == 1 and isinstance(it.generators[0].target, ast.Name):
+            g = it.generators[0]
+            if not (isinstance(it.elt, ast.Name) and it.elt.id == g.target.id):
+                raise _Unknown(f"the scan maps names: `{norm(it, 80)}`")
+            if not self._selected_by(f, g.iter, name, env, seen):
+                return False
+            en = dict(env)
+            en[g.target.id] = name
+            return all(bool(abs_eval(c, en, f)) for c in g.ifs)
+        if isinstance(it, ast.Name) and it.id not in seen:
+            seen.add(it.id)
+            for lp, v in self._accumulators(f, it.id):
+                if self._from_dir(f, lp.iter, set()) and self._selected_by(f, lp.iter, name, env, seen):
+                    en = dict(env)
+                    en[v] = name
+                    if self._run(lp.body, en, f, lambda st, a=it.id, v=v: self._adds(st, a, v)) == "hit":
+                        return True
+            for val in assigned_value(f, it.id):
+                if self._from_dir(f, val, set()) and self._selected_by(f, val, name, env, seen):
+                    return True
+            return False
+        raise _Unknown(f"source of the scanned names: `{norm(it, 80)}`")
+
+    def _run(self, stmts: List[ast.stmt], env: Dict[str, object], f: ast.AST, is_target) -> str:
+        """'hit' when a target statement (or, for an `if`, its test) is executed for the bound name, 'stop' when the
+        iteration ends first, 'fall'."""
+        for st in stmts:
+            if isinstance(st, ast.If):
+                if is_target(st.test):
+                    return "hit"
+                branch = st.body if bool(abs_eval(st.test, env, f)) else st.orelse
+                res = self._run(branch, env, f, is_target)
+                if res != "fall":
+                    return res
+                continue
+            if is_target(st):
+                return "hit"
+            if isinstance(st, (ast.Continue, ast.Break, ast.Return, ast.Raise)):
+                return "stop"
+            if isinstance(st, ast.Assign) and len(st.targets) == 1 and isinstance(st.targets[0], ast.Name):
+                try:
+                    env[st.targets[0].id] = abs_eval(st.value, env, f)
+                except _Unknown:
+                    env.pop(st.targets[0].id, None)
+                continue
+            if isinstance(st, (ast.Try, ast.With)):
+                res = self._run(st.body, env, f, is_target)
+                if res != "fall":
+                    return res
+                continue
+            if isinstance(st, (ast.For, ast.AsyncFor, ast.While)) and any(is_target(x) for x in ast.walk(st)):
+                raise _Unknown(f"nested loop before the classmethod test: `{norm(st, 60)}`")
+        return "fall"
+
+    def requires(self, name: str) -> Optional[str]:
+        """The catalogue check that demands that attribute *name* be a classmethod (None when none does)."""
+        for qn, f, node, var in self.scans:
+            env = self._module_env(f)
+            try:
+                if isinstance(node, (ast.For, ast.AsyncFor)):
+                    if not self._selected_by(f, node.iter, name, env, set()):
+                        continue
+                    en = dict(env)
+                    en[var] = name
+                    if self._run(node.body, en, f, _mentions_classmethod) == "hit":
+                        return qn
+                else:
+                    g = node.generators[0]
+                    if not self._selected_by(f, g.iter, name, env, set()):
+                        continue
+                    en = dict(env)
+                    en[var] = name
+                    if all(bool(abs_eval(c, en, f)) for c in g.ifs if not _mentions_classmethod(c)):
+                        return qn
+            except _Unknown as u:
+                raise AnalysisError(f"contract catalogue: cannot decide whether `{qn}` selects the attribute name {name!r} ({u})")
+        return None
 
 
 def _returns_no_diagnostic(body: List[ast.stmt]) -> bool:
@@ -857,17 +1070,209 @@ def _calls_parent_metadata(f: ast.AST) -> bool:
     return any(isinstance(c, ast.Call) and isinstance(c.func, ast.Attribute) and c.func.attr == "_define_metadata" and isinstance(c.func.value, ast.Call) and isinstance(c.func.value.func, ast.Name) and c.func.value.func.id == "super" for c in walk_no_nested(f))
 
 
+# --------------------------------------------------------------------------- round 4: metadata builders and absent values
+_NULLABLE_CALLS = ("inspect.getdoc", "getdoc", "inspect.getmodule", "inspect.getsourcefile", "inspect.getcomments")
+_NONE_TOLERANT_FUNCS = ("str", "repr", "bool", "isinstance", "print", "type", "id", "format", "hasattr", "getattr", "hash", "callable", "dict")
+_NONE_TOLERANT_METHODS = ("append", "add", "setdefault", "update", "get", "pop", "format", "insert", "debug", "info", "warning", "error", "exception")
+_NONE_RAISING_BUILTINS = ("len", "list", "tuple", "set", "frozenset", "sorted", "iter", "next", "int", "float", "sum", "min", "max", "any", "all", "enumerate", "zip", "map", "filter", "reversed", "issubclass", "vars", "abs", "round", "ord")
+_NONE_RAISING_MODULES = ("textwrap", "re", "string", "html", "shlex", "os.path", "json", "ast")
+_NONE_RAISING_CALLS = ("inspect.cleandoc", "cleandoc", "inspect.signature", "signature", "dedent", "indent")
+
+
+def _is_none(e: Optional[ast.AST]) -> bool:
+    return isinstance(e, ast.Constant) and e.value is None
+
+
+def nullable_reason(e: ast.AST) -> Optional[str]:
+    """Why expression *e* is None for some valid component (None when the analysis has no such reason)."""
+    if isinstance(e, ast.Attribute) and e.attr == "__doc__":
+        return "a class (or function) that has no docstring of its own has `__doc__` None - docstrings are not inherited by classes"
+    if isinstance(e, ast.Call):
+        if isinstance(e.func, ast.Name) and e.func.id == "getattr" and len(e.args) == 3 and _is_none(e.args[2]):
+            if isinstance(e.args[1], ast.Constant) and e.args[1].value == "__doc__":
+                return "a class that has no docstring of its own has `__doc__` None"
+            return "the attribute is optional (the default handed to getattr is None)"
+        if call_name(e) in _NULLABLE_CALLS:
+            return f"`{call_name(e)}` answers None when there is nothing to report"
+        if isinstance(e.func, ast.Attribute) and e.func.attr == "get" and (len(e.args) == 1 or (len(e.args) == 2 and _is_none(e.args[1]))) and not e.keywords:
+            return "`.get(key)` answers None for a missing key"
+        if isinstance(e.func, ast.Attribute) and e.func.attr == "pop" and len(e.args) == 2 and _is_none(e.args[1]):
+            return "`.pop(key, None)` answers None for a missing key"
+    if isinstance(e, ast.BoolOp) and isinstance(e.op, ast.Or):
+        return nullable_reason(e.values[-1])
+    if isinstance(e, ast.NamedExpr):
+        return nullable_reason(e.value)
+    return None
+
+
+def _same(a: ast.AST, text: str) -> bool:
+    try:
+        return ast.unparse(a) == text
+    except Exception:  # pragma: no cover
+        return False
+
+
+def _mentions(tree: Optional[ast.AST], text: str) -> bool:
+    return tree is not None and any(_same(x, text) for x in ast.walk(tree) if isinstance(x, type(ast.parse(text, mode="eval").body)))
+
+
+def none_dereference(n: ast.AST, fn: ast.AST) -> Optional[str]:
+    """The operation that fails when the nullable expression *n* is None (None when every use on the way tolerates it or a
+    test of the same expression guards the use)."""
+    text = ast.unparse(n)
+    child: ast.AST = n
+    how: Optional[str] = None
+    anc = list(ancestors(n))
+    for a in anc:
+        if isinstance(a, ast.stmt):
+            break
+        if isinstance(a, ast.Attribute) and a.value is child and a.attr not in ("__class__", "__doc__", "__eq__", "__ne__", "__hash__", "__repr__", "__str__", "__bool__", "__dir__", "__sizeof__"):
+            how = f"attribute `.{a.attr}` of it"
+        elif isinstance(a, ast.Subscript) and a.value is child:
+            how = "subscript of it"
+        elif isinstance(a, ast.Call) and a.func is child:
+            how = "call of it"
+        elif isinstance(a, ast.Call) and (any(x is child for x in a.args) or any(k.value is child for k in a.keywords)):
+            cn = call_name(a) or ""
+            if isinstance(a.func, ast.Name) and a.func.id in _NONE_TOLERANT_FUNCS:
+                return None
+            if isinstance(a.func, ast.Name) and (a.func.id in _NONE_RAISING_BUILTINS or a.func.id in _NONE_RAISING_CALLS):
+                how = f"`{a.func.id}(...)` does not accept None"
+            elif cn in _NONE_RAISING_CALLS or any(cn.startswith(m + ".") for m in _NONE_RAISING_MODULES):
+                how = f"`{cn}(...)` does not accept None"
+            else:
+                return None  # stored / handed to a callee this analysis does not know: not decided
+        elif isinstance(a, ast.BinOp) and (a.left is child or a.right is child):
+            if isinstance(a.op, ast.Mod) and a.right is child:
+                return None
+            how = f"operand of `{norm(a, 60)}`"
+        elif isinstance(a, ast.comprehension) and a.iter is child:
+            how = "iteration over it"
+        elif isinstance(a, ast.Starred) and a.value is child:
+            how = "unpacking of it"
+        elif isinstance(a, ast.Compare) and isinstance(a.ops[-1], (ast.In, ast.NotIn)) and a.comparators[-1] is child:
+            how = "membership test in it"
+        elif isinstance(a, ast.BoolOp) and isinstance(a.op, ast.Or) and a.values[-1] is not child:
+            return None  # `n or default`
+        elif isinstance(a, ast.IfExp) and a.test is child:
+            return None
+        elif isinstance(a, (ast.BoolOp, ast.IfExp, ast.NamedExpr)):
+            child = a
+            continue  # the value is handed on as it is
+        else:
+            return None  # formatted, compared, stored: None is acceptable there
+        if how:
+            break
+        child = a
+    else:
+        return None
+    if how is None:
+        st = stmt_of(n)
+        if isinstance(st, (ast.For, ast.AsyncFor)) and st.iter is child:
+            how = "iteration over it"
+        elif isinstance(st, (ast.With, ast.AsyncWith)) and any(i.context_expr is child for i in st.items):
+            how = "`with` over it"
+        else:
+            return None
+    # guarded by a test of the same expression: an enclosing if / conditional expression / `and`, a comprehension
+    # condition, or an earlier `if` / `assert` in an enclosing block
+    child = n
+    for a in anc:
+        if isinstance(a, ast.If) and not any(x is n for x in ast.walk(a.test)) and _mentions(a.test, text):
+            return None
+        if isinstance(a, ast.IfExp) and child is not a.test and _mentions(a.test, text):
+            return None
+        if isinstance(a, ast.BoolOp) and isinstance(a.op, ast.And):
+            idx = next(i for i, v in enumerate(a.values) if v is child)
+            if any(_mentions(v, text) for v in a.values[:idx]):
+                return None
+        if isinstance(a, (ast.ListComp, ast.SetComp, ast.GeneratorExp, ast.DictComp)) and any(_mentions(c, text) for g in a.generators for c in g.ifs):
+            return None
+        for fld in ("body", "orelse", "finalbody"):
+            blk = getattr(a, fld, None)
+            if isinstance(blk, list) and any(x is child for x in blk):
+                for prev in blk[: [i for i, x in enumerate(blk) if x is child][0]]:
+                    if isinstance(prev, (ast.If, ast.Assert)) and _mentions(prev.test, text):
+                        return None
+        child = a
+        if a is fn:
+            break
+    return how
+
+
+_BROAD_HANDLERS = ("Exception", "BaseException", "AttributeError", "TypeError")
+
+
+def _swallowing_try(n: ast.AST, fn: ast.AST) -> Optional[Tuple[ast.Try, ast.stmt]]:
+    """(nearest enclosing try whose handlers catch the TypeError / AttributeError of a None dereference, the statement of
+    its body that holds *n*)."""
+    child: ast.AST = n
+    for a in ancestors(n):
+        if isinstance(a, ast.Try) and any(x is child for x in a.body):
+            for h in a.handlers:
+                kinds = [dotted_name(x) or "?" for x in (h.type.elts if isinstance(h.type, ast.Tuple) else [h.type])] if h.type is not None else ["BaseException"]
+                if any(k.split(".")[-1] in _BROAD_HANDLERS for k in kinds):
+                    return a, child  # type: ignore[return-value]
+        child = a
+        if a is fn:
+            break
+    return None
+
+
+def _entries_written(stmts: List[ast.stmt]) -> List[str]:
+    out: List[str] = []
+    for st in stmts:
+        for n in ast.walk(st):
+            if isinstance(n, ast.Assign):
+                for t in n.targets:
+                    if isinstance(t, ast.Subscript) and isinstance(t.slice, ast.Constant) and isinstance(t.slice.value, str) and t.slice.value not in out:
+                        out.append(t.slice.value)
+            elif isinstance(n, ast.Call) and call_attr(n) in ("update", "setdefault"):
+                for kw in n.keywords:
+                    if kw.arg and kw.arg not in out:
+                        out.append(kw.arg)
+                if call_attr(n) == "setdefault" and n.args and isinstance(n.args[0], ast.Constant) and isinstance(n.args[0].value, str) and n.args[0].value not in out:
+                    out.append(n.args[0].value)
+    return out
+
+
+def metadata_none_dereferences(f: ast.AST) -> List[Tuple[ast.AST, str, str, str]]:
+    """(expression, why it can be None, failing operation, consequence) for every dereference of a possibly-None value in
+    the metadata builder *f* (normal form) that costs the class metadata entries or the whole metadata."""
+    out = []
+    for n in walk_no_nested(f):
+        if not isinstance(n, ast.expr):
+            continue
+        why = nullable_reason(n)
+        if why is None or isinstance(n, (ast.BoolOp, ast.NamedExpr)):
+            continue
+        how = none_dereference(n, f)
+        if how is None:
+            continue
+        tr = _swallowing_try(n, f)
+        if tr is None:
+            out.append((n, why, how, "the exception leaves `_define_metadata`: get_metadata() raises for that class (SVA100 error; a component class is not registered, SVA107)"))
+            continue
+        t, holder = tr
+        later = t.body[[i for i, x in enumerate(t.body) if x is holder][0]:]
+        lost = _entries_written(later)
+        if lost:
+            out.append((n, why, how, f"the handler of the enclosing `try` swallows the exception and the entries written from this statement on - {', '.join(repr(k) for k in lost)} - are silently missing from the class metadata"))
+    return out
+
+
 def run(repo: Repo, R: Report) -> None:
     R.assume(
         "inspect.getattr_static(cls, name) sees a classmethod object exactly when the template binds the name to classmethod(...) / @classmethod (directly or by inheritance from a base that does)",
         "value-level rules (SVA004 returns a type, SVA101 required metadata keys of arbitrary wrapped classes) depend on the wrapped user class and are not decided",
     )
     R.undecided("SVA rules that need values of arbitrary wrapped classes; running validate_components on generated classes")
-    names, suffix = catalogue_classmethod_names(repo)
+    names, selector = catalogue_classmethod_names(repo)
     R.extra["catalogue_classmethod_rules"] = sorted(names)
+    R.extra["catalogue_dir_scans"] = sorted({qn for qn, _f, _n, _v in selector.scans})
 
     # ------------------------------------------------------------------ D1
-    r_cm = R.rule("C16-D1-template-classmethods", "in every dynamic class template, each attribute the catalogue requires to be a classmethod (names read from contracts/expectations.py, plus *_data_type) is bound to a classmethod", 10)
+    r_cm = R.rule("C16-D1-template-classmethods", "in every dynamic class template, each attribute the catalogue requires to be a classmethod (names read from contracts/expectations.py, plus every name that the catalogue's dir(cls) scan - *_data_type - selects, decided by evaluating the scan's filters on the attribute name) is bound to a classmethod", 10)
     tmpl = templates(repo)
     if len(tmpl) < 10:
         raise AnalysisError(f"{len(tmpl)} dynamic class templates found (13 confirmed by reading)")
@@ -876,9 +1281,13 @@ def run(repo: Repo, R: Report) -> None:
     for rel, tname, attrs, bases, site in tmpl:
         repo.consulted.add(rel)
         for attr, (node, is_cm) in sorted(attrs.items()):
-            if attr in names or (attr.endswith(suffix) and not attr.startswith("__")):
+            by_scan = None if attr in names else selector.requires(attr)
+            if attr in names or by_scan:
                 n_checked += 1
-                R.check(is_cm, r_cm, rel, tname, f"{attr} is a classmethod", f"generated classes from this template define `{attr}` as a plain function / value: the catalogue reports an error-level diagnostic (SVA001-012) for every class it generates", getattr(node, "lineno", 0))
+                why = f"generated classes from this template define `{attr}` as a plain function / value: the catalogue reports an error-level diagnostic (SVA001-012) for every class it generates"
+                if by_scan and not is_cm:
+                    why = f"the name scan of `{EXP}:{by_scan}` selects the attribute name `{attr}` (every name it takes from dir(cls) must be bound to a classmethod), and this template binds `{attr}` to a plain value / function: every class generated from it gets an error-level diagnostic - the name filter of the catalogue and the attribute names of the templates have to agree"
+                R.check(is_cm, r_cm, rel, tname, f"{attr} is a classmethod", why, getattr(node, "lineno", 0))
     if n_checked < 10:
         raise AnalysisError(f"only {n_checked} catalogue-relevant template attributes found")
     # SVA241 / SVA250 on templates
@@ -1069,6 +1478,7 @@ def run(repo: Repo, R: Report) -> None:
     R.check("get_component_registry()" in ast.unparse(rc) and "cls not in" in ast.unparse(rc), r_reg, EXP, "_r_registry_coherence", "membership test against get_component_registry()", "the coherence rule no longer consults the registry", rc.lineno)
 
     _round3(repo, R, tmpl)
+    _round4(repo, R, tmpl)
 
 
 def _round3(repo: Repo, R: Report, tmpl) -> None:
@@ -1222,3 +1632,221 @@ def _round3(repo: Repo, R: Report, tmpl) -> None:
                     if isinstance(d, FuncNode) and member_defs.get(id(d)) in PROVIDERS:
                         n_reads, _bad = mirrored_unfiltered(repo, rel, d)
                         R.check(n_reads > 0, r_unf, rel, f"{tname}.{member_defs[id(d)]}", f"under `{norm(n.test, 80)}` the generated method reads the wrapped provider", f"the factory found `{n.test.args[1].value}` on the wrapped class but the generated `{member_defs[id(d)]}` does not return it: the adapter's created keys do not mirror the class it adapts", d.lineno)
+
+
+def _round4(repo: Repo, R: Report, tmpl) -> None:
+    nodes_mod = repo.module(NODES)
+
+    # ------------------------------------------------------------------ metadata builders survive absent optional values
+    r_none = R.rule("C16-D2-metadata-tolerates-absent-values", "the `_define_metadata` of every node class and of every generated class does not dereference a value that is None for some valid component (`X.__doc__` of a class without a docstring, `getattr(.., None)`, `.get(key)`): such a dereference raises for exactly those configurations, and either the handler around the mirrored entries swallows it - the node metadata then lacks input_data_type / output_data_type / injected_context_keys although the accessors answer them (SVA320/321, SVA311) - or get_metadata() fails (SVA100) and the class is not registered (SVA107)", 12)
+    builders: List[Tuple[str, str, ast.AST, int]] = []
+    for qn, c in sorted(nodes_mod.defs.items()):
+        if isinstance(c, ast.ClassDef) and "." not in qn and any(isinstance(st, FuncNode) and st.name == "_define_metadata" for st in c.body):
+            builders.append((NODES, f"{qn}._define_metadata", node_method(repo, f"{qn}._define_metadata"), repo.func(NODES, f"{qn}._define_metadata").lineno))
+    for rel, tname, attrs, bases, site in tmpl:
+        for attr, f, _b in member_functions(repo, rel, attrs, site):
+            if attr == "_define_metadata" and isinstance(f, FuncNode):
+                nf = clone(normalize(repo, repo.module(rel), f, copyprop="all"))
+                _attach_parents(nf)
+                builders.append((rel, f"{tname}._define_metadata", nf, f.lineno))
+                # closures of the factory that the builder hands the class to (the normaliser does not inline closures)
+                seen_h: Set[int] = set()
+                for c in [x for x in ast.walk(nf) if isinstance(x, ast.Call) and isinstance(x.func, ast.Name)]:
+                    for h in _resolve_callable(repo, rel, c.func.id, f):
+                        if isinstance(h, FuncNode) and id(h) not in seen_h and h is not f:
+                            seen_h.add(id(h))
+                            nh = clone(normalize(repo, repo.module(rel), h, copyprop="all"))
+                            _attach_parents(nh)
+                            builders.append((rel, f"{tname}._define_metadata via {h.name}", nh, h.lineno))
+    for rel, where, nf, line in builders:
+        found = metadata_none_dereferences(nf)
+        if not found:
+            R.ok(r_none, rel, where, "no dereference of a possibly-None value")
+            continue
+        for n, why, how, cost in found:
+            R.violation(r_none, rel, where, norm(stmt_of(n), 110), f"`{norm(n, 80)}` can be None ({why}) and is used where None is not accepted ({how}): for a configuration whose wrapped component has no such value the statement raises; {cost}", getattr(n, "lineno", 0) or line)
+
+    # ------------------------------------------------------------------ metadata is first evaluated while the class is created
+    _creation_time_metadata(repo, R, tmpl)
+
+
+def _explicit_params(f: ast.AST) -> List[str]:
+    a = f.args  # type: ignore[attr-defined]
+    return [x.arg for x in list(getattr(a, "posonlyargs", [])) + list(a.args) + list(a.kwonlyargs)]
+
+
+def late_signature_members(factory: ast.AST, cls_var: str, after_line: int) -> List[Tuple[str, ast.stmt]]:
+    """(member name, statement) for every `__signature__` the factory attaches to a member of the class bound to *cls_var*
+    after the class exists: `C.m.__signature__ = s`, `C.m.__func__.__signature__ = s`, `setattr(C.m, "__signature__", s)`."""
+    out: List[Tuple[str, ast.stmt]] = []
+
+    def member_of(e: ast.AST) -> Optional[str]:
+        while isinstance(e, ast.Attribute) and e.attr in ("__func__", "__wrapped__"):
+            e = e.value
+        if isinstance(e, ast.Attribute) and isinstance(e.value, ast.Name) and e.value.id == cls_var:
+            return e.attr
+        if isinstance(e, ast.Call) and isinstance(e.func, ast.Name) and e.func.id == "getattr" and len(e.args) >= 2 and isinstance(e.args[0], ast.Name) and e.args[0].id == cls_var and isinstance(e.args[1], ast.Constant):
+            return str(e.args[1].value)
+        return None
+
+    for n in ast.walk(factory):
+        if getattr(n, "lineno", 0) <= after_line:
+            continue
+        if isinstance(n, ast.Assign):
+            for t in n.targets:
+                if isinstance(t, ast.Attribute) and t.attr == "__signature__":
+                    m = member_of(t.value)
+                    if m:
+                        out.append((m, n))
+        elif isinstance(n, ast.Call) and isinstance(n.func, ast.Name) and n.func.id == "setattr" and len(n.args) == 3 and isinstance(n.args[1], ast.Constant) and n.args[1].value == "__signature__":
+            m = member_of(n.args[0])
+            if m:
+                out.append((m, stmt_of(n)))
+    return out
+
+
+def signature_derived_entries(repo: Repo, base_names: List[str], members: Set[str]) -> Dict[str, Tuple[str, str, str]]:
+    """{metadata key: (file, function, member)} for the entries that the `_define_metadata` functions along the MRO of the
+    template's bases compute from `cls.<member>` (its signature) for a member in *members*."""
+    out: Dict[str, Tuple[str, str, str]] = {}
+    for b in base_names:
+        hit = _class_by_name(repo, b.split(".")[-1])
+        if hit is None:
+            continue
+        for m, c in repo.mro(*hit):
+            dm = next((st for st in c.body if isinstance(st, FuncNode) and st.name == "_define_metadata"), None)
+            if dm is None:
+                continue
+            qn = f"{qualname_of(c)}._define_metadata"
+            f = clone(nfunc(repo, m.rel, qn, copyprop="all"))
+            _attach_parents(f)
+            recv = _first_param(f)
+            for n in walk_no_nested(f):
+                pairs: List[Tuple[str, ast.AST]] = []
+                if isinstance(n, ast.Dict):
+                    pairs = [(k.value, v) for k, v in zip(n.keys, n.values) if isinstance(k, ast.Constant) and isinstance(k.value, str)]
+                elif isinstance(n, ast.Assign):
+                    pairs = [(t.slice.value, n.value) for t in n.targets if isinstance(t, ast.Subscript) and isinstance(t.slice, ast.Constant) and isinstance(t.slice.value, str)]
+                for key, v in pairs:
+                    for x in _flow(f, v):
+                        if isinstance(x, ast.Attribute) and x.attr in members and isinstance(x.value, ast.Name) and x.value.id == recv and key not in out:
+                            out[key] = (m.rel, qn, x.attr)
+            if not _calls_parent_metadata(dm):
+                break
+    return out
+
+
+def _is_entry(e: ast.AST, fn: ast.AST, keys: Dict[str, Tuple[str, str, str]], _seen: Optional[Set[str]] = None) -> Optional[str]:
+    """The signature-derived metadata key whose value *e* denotes (`X["parameters"]`, `X.get("parameters")`, a local that holds it)."""
+    _seen = _seen if _seen is not None else set()
+    if isinstance(e, ast.Subscript) and isinstance(e.slice, ast.Constant) and e.slice.value in keys:
+        return e.slice.value
+    if isinstance(e, ast.Call) and isinstance(e.func, ast.Attribute) and e.func.attr in ("get", "setdefault", "pop") and e.args and isinstance(e.args[0], ast.Constant) and e.args[0].value in keys:
+        return e.args[0].value
+    if isinstance(e, ast.Name) and e.id not in _seen:
+        _seen.add(e.id)
+        for v in assigned_value(fn, e.id):
+            k = _is_entry(v, fn, keys, _seen)
+            if k:
+                return k
+    return None
+
+
+def _lookup_guarded(n: ast.AST, fn: ast.AST) -> bool:
+    """A membership test or a handler for the lookup error surrounds the partial lookup *n*."""
+    child: ast.AST = n
+    for a in ancestors(n):
+        tests: List[ast.AST] = []
+        if isinstance(a, (ast.If, ast.IfExp, ast.While)) and not any(x is n for x in ast.walk(a.test)):
+            tests.append(a.test)
+        if isinstance(a, (ast.ListComp, ast.SetComp, ast.GeneratorExp, ast.DictComp)):
+            tests.extend(c for g in a.generators for c in g.ifs)
+        if isinstance(a, ast.BoolOp) and isinstance(a.op, ast.And):
+            tests.extend(v for v in a.values if v is not child)
+        if any(isinstance(c, ast.Compare) and any(isinstance(o, (ast.In, ast.NotIn)) for o in c.ops) for t in tests for c in ast.walk(t)):
+            return True
+        if isinstance(a, ast.Try) and any(x is child for x in a.body):
+            for h in a.handlers:
+                kinds = [dotted_name(x) or "?" for x in (h.type.elts if isinstance(h.type, ast.Tuple) else [h.type])] if h.type is not None else ["BaseException"]
+                if any(k.split(".")[-1] in ("KeyError", "LookupError", "Exception", "BaseException") for k in kinds):
+                    return True
+        for fld in ("body", "orelse"):
+            blk = getattr(a, fld, None)
+            if isinstance(blk, list) and any(x is child for x in blk):
+                for prev in blk[: [i for i, x in enumerate(blk) if x is child][0]]:
+                    if isinstance(prev, ast.If) and prev.body and isinstance(prev.body[-1], (ast.Continue, ast.Break, ast.Return)) and any(isinstance(c, ast.Compare) and any(isinstance(o, (ast.In, ast.NotIn)) for o in c.ops) for c in ast.walk(prev.test)):
+                        return True
+        child = a
+        if a is fn:
+            break
+    return False
+
+
+def _creation_time_metadata(repo: Repo, R: Report, tmpl) -> None:
+    r_ct = R.rule("C16-D1-template-metadata-at-class-creation", "the component metaclass evaluates get_metadata() while a class is being created and registers the class only when that succeeds; a signature that a factory attaches to a member after the class statement is not there yet, so the `_define_metadata` of the generated class makes no partial lookup (hard subscript, one-argument pop, del) - with a key outside the member's own `def` parameters - into a metadata entry that the base class computes from that member's signature", 2)
+    # the anchor: metadata is evaluated inside the metaclass, failure means `not registered`
+    metas = [(q, c) for q, c in repo.module(COMP).defs.items() if isinstance(c, ast.ClassDef) and any((dotted_name(b) or "").split(".")[-1] in ("type", "ABCMeta") for b in c.bases)]
+    evaluated = None
+    for q, c in metas:
+        init = next((st for st in c.body if isinstance(st, FuncNode) and st.name in ("__init__", "__new__")), None)
+        if init is None:
+            continue
+        for t in [n for n in ast.walk(init) if isinstance(n, ast.Try)]:
+            if any(isinstance(x, ast.Call) and call_attr(x) in ("get_metadata", "_define_metadata") for b in t.body for x in ast.walk(b)) and t.handlers:
+                evaluated = (q, init, t)
+    if evaluated is None:
+        R.note("the component metaclass no longer evaluates metadata under a handler while the class is created: creation-time rule not applicable")
+        raise AnalysisError("component metaclass: no `try: cls.get_metadata()` in its __init__ (anchor of C16-D1-template-metadata-at-class-creation vanished)")
+    mq, minit, mtry = evaluated
+    R.ok(r_ct, COMP, f"{mq}.{minit.name}", "get_metadata() evaluated during class creation; a failure leaves the class unregistered")
+    for rel, tname, attrs, bases, site in tmpl:
+        factory = enclosing_function(site)
+        if factory is None:
+            continue
+        if isinstance(site, ast.ClassDef):
+            cls_var: Optional[str] = site.name
+        else:
+            st = stmt_of(site)
+            cls_var = st.targets[0].id if isinstance(st, ast.Assign) and len(st.targets) == 1 and isinstance(st.targets[0], ast.Name) and st.value is site else None
+        if cls_var is None:
+            continue
+        late = late_signature_members(factory, cls_var, getattr(site, "end_lineno", None) or site.lineno)
+        members = member_functions(repo, rel, attrs, site)
+        dms = [f for a, f, _b in members if a == "_define_metadata" and isinstance(f, FuncNode)]
+        if not late or not dms:
+            continue
+        late_names = {m for m, _st in late}
+        keys = signature_derived_entries(repo, bases, late_names)
+        if not keys:
+            R.note(f"{rel}:{tname}: signature attached after the class statement to {sorted(late_names)}, no base-class metadata entry derived from it found")
+            continue
+        for f in dms:
+            nf = clone(normalize(repo, repo.module(rel), f, copyprop="all"))
+            _attach_parents(nf)
+            bad: List[Tuple[ast.AST, str, str]] = []
+            for n in ast.walk(nf):
+                key_e: Optional[ast.AST] = None
+                table: Optional[str] = None
+                if isinstance(n, ast.Subscript) and isinstance(n.ctx, (ast.Load, ast.Del)):
+                    table = _is_entry(n.value, nf, keys)
+                    key_e = n.slice
+                elif isinstance(n, ast.Call) and isinstance(n.func, ast.Attribute) and n.func.attr in ("pop", "remove", "index", "move_to_end") and len(n.args) == 1 and not n.keywords:
+                    table = _is_entry(n.func.value, nf, keys)
+                    key_e = n.args[0]
+                if not table or key_e is None:
+                    continue
+                member = keys[table][2]
+                own = next((_explicit_params(mf) for a, mf, _b in members if a == member and isinstance(mf, FuncNode)), [])
+                if isinstance(key_e, ast.Constant) and key_e.value in own[1:]:
+                    continue
+                if _lookup_guarded(n, nf):
+                    continue
+                bad.append((n, table, member))
+            att = {m: st for m, st in late}
+            if not bad:
+                R.ok(r_ct, rel, f"{tname}._define_metadata", f"no partial lookup into {sorted(keys)} (derived from the signature attached later to {sorted(late_names)})")
+            for n, table, member in bad:
+                brel, bqn, _m = keys[table]
+                R.violation(r_ct, rel, f"{tname}._define_metadata", norm(stmt_of(n), 110),
+                            f"`{norm(n, 80)}` looks a key up in metadata entry '{table}', which `{brel}:{bqn}` computes from the signature of `cls.{member}`; the factory attaches that signature only after the class statement (`{norm(att[member], 80)}`, line {getattr(att[member], 'lineno', 0)}), but `{COMP}:{mq}.{minit.name}` calls get_metadata() while the class is being created, when the entry still reflects `def {member}({next((ast.unparse(mf.args) for a, mf, _b in members if a == member and isinstance(mf, FuncNode)), '...')})`: the lookup raises for every configuration that reaches it, the metaclass swallows the exception and the generated class is never registered - the catalogue reports SVA107 (error) for it",
+                            getattr(n, "lineno", 0) or f.lineno)
